@@ -28,14 +28,14 @@ Theorem C07_untaken : forall g t fin draw g' rel canc,
 Proof. exact notify_untaken. Qed.
 Print Assumptions C07_untaken.
 
-(* a join that is not itself a child of the conditional on an untaken edge, and that still has a parent
-   that is not cancelled, keeps its state; so does every regular task whose parents kept theirs (by
-   induction: everything behind the join) *)
+(* a join that still has a parent, other than the conditional itself, that is not cancelled keeps its state
+   (also when the conditional has a DIRECT edge to it: the loop leaves such a join alone); so does every
+   regular task whose parents kept theirs (by induction: everything behind the join) *)
 Theorem C07_join : forall g t fin draw g' rel canc,
   notify_completion g t fin draw = (g', Ok (rel, canc)) -> tg_conditional g t = true ->
   all_children_zero g t = false -> cancel_closed g ->
-  forall j, tg_terminal g j = true -> (forall u, In u (tg_children g t) -> ~ In u rel -> u <> j) ->
-  (exists p, In p (tg_parents g j) /\ tg_state g' p <> TS_CANCELLED) -> tg_state g' j = tg_state g j.
+  forall j, tg_terminal g j = true ->
+  (exists p, In p (tg_parents g j) /\ p <> t /\ tg_state g' p <> TS_CANCELLED) -> tg_state g' j = tg_state g j.
 Proof. exact notify_join. Qed.
 Print Assumptions C07_join.
 Theorem C07_behind_join : forall g t fin draw g' rel canc,
@@ -148,24 +148,25 @@ Proof.
   - eexists. split; [vm_compute; reflexivity|]. repeat split; try (vm_compute; reflexivity). constructor. reflexivity.
 Qed.
 
-(* ---- FINDING: when the conditional has a DIRECT edge to its join (an `if` without `else`), the join
-   is itself an untaken child; notify_task_completion then cancels the join (and everything behind it)
-   although the taken branch A -> T is alive.  C -> [A, T], A -> T, T -> Z, draw = A. ---- *)
+(* ---- regression of finding FTG1 (repaired in /repo 9d10278): the conditional has a DIRECT edge to its join
+   (an `if` without `else`): C -> [A, T], A -> T, T -> Z, draw = A.  The join is no longer cancelled, the
+   taken branch A still leads to it: an instance of C07_join with p = A (the witness corpus/C07/
+   join_direct_edge.json is replayed on the real code on every run). ---- *)
 Definition c7_direct : tgraph :=
   mkTG [(1, [2; 3]); (2, [3]); (3, [4]); (4, [])]
        [(1, c7_task TS_COMPLETED false true 16); (2, c7_task TS_VIRTUAL false false 8);
         (3, c7_task TS_VIRTUAL true false 8); (4, c7_task TS_VIRTUAL false false 16)] 16.
-Theorem C07_join_direct_edge_refuted :
-  exists g t fin draw g' rel canc j,
-    notify_completion g t fin draw = (g', Ok (rel, canc)) /\ tg_conditional g t = true /\ cancel_closed g /\
-    tg_terminal g j = true /\ (exists p, In p (tg_parents g j) /\ In p rel /\ tg_state g' p <> TS_CANCELLED) /\
-    tg_state g j <> TS_CANCELLED /\ tg_state g' j = TS_CANCELLED.
+Example C07_join_direct_edge :
+  cancel_closed c7_direct /\ tg_terminal c7_direct 3 = true /\ In 3 (tg_children c7_direct 1) /\
+  exists g', notify_completion c7_direct 1 5 0 = (g', Ok ([2], [])) /\
+             tg_state g' 3 = TS_VIRTUAL /\ tg_state g' 4 = TS_VIRTUAL /\ tg_is_cancelled g' = false.
 Proof.
-  exists c7_direct, 1, 5, 0. eexists. exists [2], [3; 4], 3.
-  split; [vm_compute; reflexivity|]. split; [reflexivity|]. split.
-  - apply cancel_closedb_iff; [apply tg_ok_wf; vm_compute; reflexivity | vm_compute; reflexivity].
-  - split; [reflexivity|]. split.
-    + exists 2. split; [vm_compute; auto|]. split; [left; reflexivity | vm_compute; discriminate].
-    + split; [vm_compute; discriminate | vm_compute; reflexivity].
+  split; [apply cancel_closedb_iff; [apply tg_ok_wf; vm_compute; reflexivity | vm_compute; reflexivity]|].
+  split; [reflexivity|]. split; [vm_compute; auto|].
+  eexists. split; [vm_compute; reflexivity|]. repeat split; vm_compute; reflexivity.
 Qed.
-Print Assumptions C07_join_direct_edge_refuted.
+(* when the other branch T is drawn instead, A is cancelled and the join runs *)
+Example C07_join_direct_edge_taken :
+  exists g', notify_completion c7_direct 1 5 1 = (g', Ok ([3], [2])) /\ tg_state g' 2 = TS_CANCELLED /\
+             tg_state g' 3 = TS_VIRTUAL.
+Proof. eexists. split; [vm_compute; reflexivity|]. split; vm_compute; reflexivity. Qed.
